@@ -29,3 +29,68 @@ for tag, callee in (('forward', 'TLA_safe_decrement_forward'), ('bidir', 'TLA_sa
         lower=[rx(r'safe_decrement_dispatch\(\s*typename std::iterator_traits<Iter>::iterator_category\(\), it, begin\);', '%s(it_p, begin);' % callee, 1, 1, flags=re.S), rx(r'(?<![\w.>])it(?![\w])', '(*it_p)', 1)],
         no_flags=['--conversion-check'], inst='%s iterator category' % tag, fallback_unwind=6,
         says='safe_decrement (%s iterators): true and unchanged at the beginning, otherwise false and `it` moved to its predecessor' % tag))
+
+# ---- traversal over a nested structure: outer positions 0..NO (NO = end), inner positions 0..LEN[o] (LEN[o] = end) ------------------
+TP = ["""
+typedef uint64_t Iter;
+#define MAXO 6u                    /* number of outer containers: configuration bound for the model of the nested structure */
+unsigned NO; unsigned LEN[MAXO];   /* the nested structure: NO inner containers, LEN[o] elements in container o (any may be empty) */
+struct TLI { Iter outer; Iter inner; };      /* m_outer, base_reference(); m_outer_begin = 0, m_outer_end = NO */
+static inline Iter inner_begin(Iter o) { __CPROVER_assert(o < NO, "m_inner_begin_fn(*m_outer): m_outer is dereferenceable (not the outer end)"); return 0; }
+static inline Iter inner_end(Iter o) { __CPROVER_assert(o < NO, "m_inner_end_fn(*m_outer): m_outer is dereferenceable (not the outer end)"); return LEN[o]; }
+unsigned g_q;                      /* ghost probe outer position */
+#define SHAPE (NO <= MAXO && __CPROVER_forall { unsigned q_; (q_ < MAXO) ==> LEN[q_] <= 8 })
+/* a position ON an element */
+#define ON_ELEM(it) ((it)->outer < NO && (it)->inner < LEN[(it)->outer])
+"""]
+TL_COMMON = [rx(r'this->base_reference\(\)', 'self->inner', 0), rx(r'm_inner_end_fn\(\*m_outer\)', 'inner_end(self->outer)', 0), rx(r'm_inner_begin_fn\(\*m_outer\)', 'inner_begin(self->outer)', 0),
+             rx(r'm_outer_end', 'NO', 0), rx(r'm_outer_begin', '((Iter)0)', 0), rx(r'(?<![\w.>])m_outer(?![\w])', 'self->outer', 0), rx(r'InnerIter end;', 'Iter end;', 0),
+             rx(r'bool too_far __attribute__\(\(unused\)\)\s*=\s*safe_decrement\(self->outer, \(\(Iter\)0\)\);', 'bool too_far = TLA_safe_decrement_bidir_top(&self->outer, (Iter)0);', 0),
+             rx(r'bool too_far __attribute__\(\(unused\)\)\s*=\s*safe_decrement\(self->inner, inner_begin\(self->outer\)\);', 'bool too_far = TLA_safe_decrement_bidir_top(&self->inner, inner_begin(self->outer));', 0),
+             rx(r'!safe_decrement\(self->inner,\s*inner_begin\(self->outer\)\)', '!TLA_safe_decrement_bidir_top(&self->inner, inner_begin(self->outer))', 0),
+             rx(r'assert\(!too_far\);', '__CPROVER_assert(!too_far, "code-assert: !too_far");', 0), rx(r'(?<![\w.>])seek_forward\(\);', 'TLA_seek_forward(self);', 0), rx(r'(?<![\w.>])seek_backward\(\);', 'TLA_seek_backward(self);', 0)]
+UNITS.append(Unit(
+    name='TLA_seek_forward', src=TLA, within=W, anchor=r'void seek_forward\(\)', proto='void TLA_seek_forward(struct TLI* self)',
+    contract="""__CPROVER_requires(__CPROVER_is_fresh(self, sizeof(*self)) && SHAPE && self->outer < NO && self->inner <= LEN[self->outer] && g_q < MAXO)
+/* already on an element: nothing moves */
+__CPROVER_ensures(__CPROVER_old(self->inner) < LEN[__CPROVER_old(self->outer)] ==> (self->outer == __CPROVER_old(self->outer) && self->inner == __CPROVER_old(self->inner)))
+/* at the end of an inner container: the first element of the next NON-EMPTY container, or the outer end; every container skipped is empty */
+__CPROVER_ensures(__CPROVER_old(self->inner) == LEN[__CPROVER_old(self->outer)] ==> (self->outer > __CPROVER_old(self->outer) && self->outer <= NO && (self->outer < NO ==> (self->inner == 0 && LEN[self->outer] >= 1)) && ((__CPROVER_old(self->outer) < g_q && g_q < self->outer) ==> LEN[g_q] == 0)))
+__CPROVER_assigns(self->outer, self->inner)""",
+    prelude=TP, lower=TL_COMMON, ghost_prefix='const Iter o0 = self->outer;',
+    loops={1: '__CPROVER_assigns(self->outer, self->inner)\n__CPROVER_loop_invariant(self->outer > o0 && self->outer <= NO && NO <= MAXO && ((o0 < g_q && g_q < self->outer) ==> LEN[g_q] == 0))\n__CPROVER_decreases(NO - self->outer)'},
+    fallback_unwind=8, no_flags=['--conversion-check'], inst='nested structure of <= 6 inner containers of <= 8 elements',
+    says='seek_forward: a position that ran off an inner container moves to the first element of the next non-empty container (all containers skipped are empty) or to the end; the outer end iterator is never dereferenced'))
+UNITS.append(Unit(
+    name='TLA_increment', src=TLA, within=W, anchor=r'void increment\(\)', proto='void TLA_increment(struct TLI* self)',
+    contract="""__CPROVER_requires(__CPROVER_is_fresh(self, sizeof(*self)) && SHAPE && ON_ELEM(self) && g_q < MAXO)
+/* the SUCCESSOR in the flattened sequence: next element of the same container, else first element of the next non-empty one, else the end */
+__CPROVER_ensures(__CPROVER_old(self->inner) + 1 < LEN[__CPROVER_old(self->outer)] ? (self->outer == __CPROVER_old(self->outer) && self->inner == __CPROVER_old(self->inner) + 1)
+                  : (self->outer > __CPROVER_old(self->outer) && self->outer <= NO && (self->outer < NO ==> (self->inner == 0 && LEN[self->outer] >= 1)) && ((__CPROVER_old(self->outer) < g_q && g_q < self->outer) ==> LEN[g_q] == 0)))
+__CPROVER_assigns(self->outer, self->inner)""",
+    prelude=TP, lower=TL_COMMON, inline=['TLA_seek_forward'], fallback_unwind=8, no_flags=['--conversion-check'], inst='nested structure of <= 6 inner containers of <= 8 elements',
+    says='operator++: from an element to its successor in the flattened sequence (empty inner containers are skipped), or to the end'))
+UNITS.append(Unit(
+    name='TLA_seek_backward', src=TLA, within=W, anchor=r'void seek_backward\(\)', proto='void TLA_seek_backward(struct TLI* self)',
+    contract="""__CPROVER_requires(__CPROVER_is_fresh(self, sizeof(*self)) && SHAPE && self->outer < NO && g_q < MAXO && g_first < NO && LEN[g_first] >= 1 && g_first <= self->outer)
+/* to the END of the last non-empty container at or before the current one (one exists: g_first) */
+__CPROVER_ensures(self->outer <= __CPROVER_old(self->outer) && self->outer >= g_first && LEN[self->outer] >= 1 && self->inner == LEN[self->outer] && ((self->outer < g_q && g_q <= __CPROVER_old(self->outer)) ==> LEN[g_q] == 0))
+__CPROVER_assigns(self->outer, self->inner)""",
+    prelude=TP + ['unsigned g_first;   /* ghost: some non-empty container at or before the position (so the backward search stops) */\n'], lower=TL_COMMON, inline=['TLA_safe_decrement_bidir', 'TLA_safe_decrement_bidir_top'],
+    ghost_prefix='const Iter o0 = self->outer;',
+    loops={1: '__CPROVER_assigns(end, self->outer)\n__CPROVER_loop_invariant(self->outer <= o0 && self->outer >= g_first && end == LEN[self->outer] && NO <= MAXO && o0 < NO && ((self->outer < g_q && g_q <= o0) ==> LEN[g_q] == 0))\n__CPROVER_decreases(self->outer)'},
+    fallback_unwind=8, no_flags=['--conversion-check'], inst='bidirectional outer iterator; nested structure of <= 6 inner containers of <= 8 elements',
+    says='seek_backward: to the end of the nearest non-empty container at or before the current one (all containers skipped are empty); never steps before the first container'))
+UNITS.append(Unit(
+    name='TLA_decrement', src=TLA, within=W, anchor=r'void decrement\(\)', proto='void TLA_decrement(struct TLI* self)',
+    contract="""__CPROVER_requires(__CPROVER_is_fresh(self, sizeof(*self)) && SHAPE && g_q < MAXO && g_first < NO && LEN[g_first] >= 1)
+/* a position on an element or the end, NOT the first element of the sequence: g_first is a non-empty container strictly before it, or the same container with inner > 0 */
+__CPROVER_requires((self->outer == NO && self->inner <= 8) || (ON_ELEM(self)))
+__CPROVER_requires(self->outer == NO ? g_first < NO : ((self->inner > 0 && g_first == self->outer) || g_first < self->outer))
+/* the PREDECESSOR in the flattened sequence */
+__CPROVER_ensures((__CPROVER_old(self->outer) < NO && __CPROVER_old(self->inner) > 0) ? (self->outer == __CPROVER_old(self->outer) && self->inner == __CPROVER_old(self->inner) - 1)
+                  : (self->outer < __CPROVER_old(self->outer) && self->outer >= g_first && LEN[self->outer] >= 1 && self->inner == LEN[self->outer] - 1 && ((self->outer < g_q && g_q < __CPROVER_old(self->outer)) ==> LEN[g_q] == 0)))
+__CPROVER_assigns(self->outer, self->inner)""",
+    prelude=TP + ['unsigned g_first;   /* ghost: a non-empty container before the position */\n'], lower=TL_COMMON, inline=['TLA_safe_decrement_bidir', 'TLA_safe_decrement_bidir_top', 'TLA_seek_backward'],
+    fallback_unwind=8, no_flags=['--conversion-check'], inst='bidirectional iterators; nested structure of <= 6 inner containers of <= 8 elements',
+    says='operator--: from the end or an element that is not the first one to its predecessor in the flattened sequence (empty inner containers are skipped); the code\'s own assertions (!too_far) hold'))
